@@ -8,17 +8,31 @@ open SamVerif SamVerif.Gen.Scan SamVerif.Resp SamVerif.Scan SamVerif.Proofs.Resp
 /-- the proxy's client-visible cursor for (node index, node cursor) -/
 def packed (i c : Nat) : Bytes := natDigits (i * 2^48 + c)
 
-theorem parse_packed (i c : Nat) (hi : i ≤ 32767) (hc : c < 2^48) :
-    parseInt64 (packed i c) = some ((i * 2^48 + c : Nat) : Int) := by
-  have := parseInt64_itoa ((i * 2^48 + c : Nat) : Int) (by unfold minInt64; omega) (by unfold maxInt64; omega)
-  simpa [itoa, packed] using this
+theorem parseUint64_natDigits (n : Nat) (h : n < 2^64) : parseUint64 (natDigits n) = some n := by
+  unfold parseUint64
+  have h1 : (natDigits n).isEmpty = false := by
+    cases hh : natDigits n with
+    | nil => exact absurd hh (natDigits_ne_nil n)
+    | cons a l => rfl
+  rw [h1, natDigits_all_digit, parseDigits_natDigits]
+  simp only [Bool.not_true, Bool.or_self, Bool.false_eq_true, ↓reduceIte, h]
 
-theorem parseCursor_packed (i c : Nat) (hi : i ≤ 32767) (hc : c < 2^48) :
-    parseCursor (toU64 ((i * 2^48 + c : Nat) : Int)) = (BitVec.ofNat 16 i, BitVec.ofNat 64 c) := by
-  have h := parseCursor_toNat (toU64 ((i * 2^48 + c : Nat) : Int))
-  have hv : (toU64 ((i * 2^48 + c : Nat) : Int)).toNat = i * 2^48 + c := by
-    unfold toU64
-    rw [BitVec.ofInt_natCast, BitVec.toNat_ofNat]
+theorem parseScanCursor_natDigits (n : Nat) (hlt : n < 2^64) :
+    parseScanCursor (natDigits n) = some (BitVec.ofNat 64 n) := by
+  have hp := parseUint64_natDigits _ hlt
+  unfold parseScanCursor
+  rw [hp]
+
+/-- every cursor the proxy can hand out — node index up to 65535, node cursor below 2^48 — is read back -/
+theorem parse_packed (i c : Nat) (hi : i ≤ 65535) (hc : c < 2^48) :
+    parseScanCursor (packed i c) = some (BitVec.ofNat 64 (i * 2^48 + c)) :=
+  parseScanCursor_natDigits (i * 2^48 + c) (by omega)
+
+theorem parseCursor_packed (i c : Nat) (hi : i ≤ 65535) (hc : c < 2^48) :
+    parseCursor (BitVec.ofNat 64 (i * 2^48 + c)) = (BitVec.ofNat 16 i, BitVec.ofNat 64 c) := by
+  have h := parseCursor_toNat (BitVec.ofNat 64 (i * 2^48 + c))
+  have hv : (BitVec.ofNat 64 (i * 2^48 + c)).toNat = i * 2^48 + c := by
+    rw [BitVec.toNat_ofNat]
     apply Nat.mod_eq_of_lt; omega
   rw [hv] at h
   have e1 : (i * 2^48 + c) / 2^48 = i := by omega
@@ -35,30 +49,29 @@ theorem parseCursor_packed (i c : Nat) (hi : i ≤ 32767) (hc : c < 2^48) :
     rw [hb, BitVec.toNat_ofNat]
     exact (Nat.mod_eq_of_lt (by omega)).symm
 
-theorem pastLast_ofNat (n i : Nat) (hn : n ≤ 32767) (hi : i ≤ 32767) :
+/-- the comparison is made on ints: any number of nodes, any node index a cursor can carry -/
+theorem pastLast_ofNat (n i : Nat) (hi : i ≤ 65535) :
     pastLastNode (BitVec.ofNat 16 i) n = decide (n ≤ i) := by
   unfold pastLastNode
-  simp only [BitVec.ule, BitVec.toNat_ofNat]
-  have e1 : n % 2^16 = n := Nat.mod_eq_of_lt (by omega)
   have e2 : i % 2^16 = i := Nat.mod_eq_of_lt (by omega)
-  rw [e1, e2]
+  rw [BitVec.toNat_ofNat, e2]
 
-theorem request_term (n : Nat) (idx : BitVec 16) (nc : BitVec 64) (v : Int) (c : Bytes)
-   (h1 : parseInt64 c = some v) (h2 : parseCursor (toU64 v) = (idx, nc)) (h3 : pastLastNode idx n = true) :
+theorem request_term (n : Nat) (idx : BitVec 16) (nc : BitVec 64) (v : BitVec 64) (c : Bytes)
+   (h1 : parseScanCursor c = some v) (h2 : parseCursor v = (idx, nc)) (h3 : pastLastNode idx n = true) :
     request n scanCmd [c] = (.local respScanTerm, idx) := by
   unfold request
   simp only [h1, h2, h3, ↓reduceIte]
 
-theorem request_fwd (n : Nat) (idx : BitVec 16) (nc : BitVec 64) (v : Int) (c : Bytes)
-   (h1 : parseInt64 c = some v) (h2 : parseCursor (toU64 v) = (idx, nc)) (h3 : pastLastNode idx n = false) :
+theorem request_fwd (n : Nat) (idx : BitVec 16) (nc : BitVec 64) (v : BitVec 64) (c : Bytes)
+   (h1 : parseScanCursor c = some v) (h2 : parseCursor v = (idx, nc)) (h3 : pastLastNode idx n = false) :
     request n scanCmd [c] = (.fwd idx.toNat [scanCmd, natDigits nc.toNat], idx) := by
   unfold request
   simp only [h1, h2, h3, Bool.false_eq_true, ↓reduceIte]
 
-theorem request_packed_term (n i c : Nat) (hn : n ≤ 32767) (hi : i ≤ 32767) (hc : c < 2^48) (h : n ≤ i) :
+theorem request_packed_term (n i c : Nat) (hi : i ≤ 65535) (hc : c < 2^48) (h : n ≤ i) :
     request n scanCmd [packed i c] = (.local respScanTerm, BitVec.ofNat 16 i) :=
   request_term n _ _ _ _ (parse_packed i c hi hc) (parseCursor_packed i c hi hc)
-    (by rw [pastLast_ofNat n i hn hi]; exact decide_eq_true h)
+    (by rw [pastLast_ofNat n i hi]; exact decide_eq_true h)
 
 theorem request_packed_fwd (n i c : Nat) (hn : n ≤ 32767) (hi : i ≤ 32767) (hc : c < 2^48) (h : i < n) :
     request n scanCmd [packed i c] = (.fwd i [scanCmd, natDigits c], BitVec.ofNat 16 i) := by
@@ -66,8 +79,8 @@ theorem request_packed_fwd (n i c : Nat) (hn : n ≤ 32767) (hi : i ≤ 32767) (
     rw [BitVec.toNat_ofNat]; exact Nat.mod_eq_of_lt (by omega)
   have e3 : (BitVec.ofNat 64 c).toNat = c := by
     rw [BitVec.toNat_ofNat]; exact Nat.mod_eq_of_lt (by omega)
-  have := request_fwd n _ _ _ _ (parse_packed i c hi hc) (parseCursor_packed i c hi hc)
-    (by rw [pastLast_ofNat n i hn hi]; exact decide_eq_false (by omega))
+  have := request_fwd n _ _ _ _ (parse_packed i c (by omega) hc) (parseCursor_packed i c (by omega) hc)
+    (by rw [pastLast_ofNat n i (by omega)]; exact decide_eq_false (by omega))
   rw [e2, e3] at this
   exact this
 
@@ -176,7 +189,7 @@ theorem iterate_past_last (nodes : List Node) (hlen : nodes.length ≤ 32767) (f
     (iterate nodes fuel (packed nodes.length 0)).2 = ([], true) := by
   obtain ⟨f, rfl⟩ : ∃ f, fuel = f + 1 := ⟨fuel - 1, by omega⟩
   rw [iterate_term_generic nodes _ _ f
-    (request_packed_term nodes.length nodes.length 0 hlen hlen (by omega) (Nat.le_refl _))]
+    (request_packed_term nodes.length nodes.length 0 (by omega) (by omega) (Nat.le_refl _))]
 
 
 /-- every node of the list satisfies the SCAN guarantee with the given keys / call count -/
